@@ -50,17 +50,31 @@ type c05Case struct {
 }
 
 type c05Probe struct {
-	r     *vr.Report
-	entry string
-	o     bgpgen.OptSet
-	fam   bgp.Family
-	htype uint8
-	note  string
-	slot  *c05Slot // progress slot for the hang watchdog (may be nil)
+	r              *vr.Report
+	entry          string
+	o              bgpgen.OptSet
+	fam            bgp.Family
+	htype          uint8
+	note           string
+	seed           string   // catalogue name of the seed (mutation spaces)
+	mut            string   // mutation applied
+	pair           [4]int   // thorough pairs: length-field offset, value, byte offset, value
+	slot           *c05Slot // progress slot for the hang watchdog (may be nil)
+	outRej, outAcc string
+	hdr            bgp.BGPHeader
+	bufs           [9][]byte
 }
 
 func (p *c05Probe) cs(in []byte) c05Case {
 	c := c05Case{Entry: p.entry, Opt: p.o.Name, Hex: hex.EncodeToString(in), Note: p.note}
+	if p.seed != "" {
+		c.Note = p.seed + " " + p.mut
+		if p.mut == "" && p.pair[0] >= 0 && p.pair != [4]int{} {
+			c.Note = fmt.Sprintf("%s len-field@%d=%d byte[%d]=%#02x", p.seed, p.pair[0], p.pair[1], p.pair[2], p.pair[3])
+		} else if p.mut == "" && p.pair[0] < 0 {
+			c.Note = fmt.Sprintf("%s byte[%d]=%#02x", p.seed, p.pair[2], p.pair[3])
+		}
+	}
 	if p.entry == c05NLRI {
 		c.Fam = p.fam.String()
 	}
@@ -145,9 +159,14 @@ type c05Cur struct {
 	in []byte
 }
 
+// The worker overwrites p/in without synchronisation; the watchdog reads them only after the counter has
+// not moved for two minutes, i.e. when the worker is stuck inside one call and the fields are stable.
 type c05Slot struct {
-	n   atomic.Uint64
-	cur atomic.Pointer[c05Cur]
+	n    atomic.Uint64
+	busy atomic.Bool
+	p    *c05Probe
+	in   []byte
+	_    [40]byte // keep the slots of different workers off one cache line
 }
 
 func c05Watchdog(t *testing.T, slots []*c05Slot, done <-chan struct{}) {
@@ -161,8 +180,8 @@ func c05Watchdog(t *testing.T, slots []*c05Slot, done <-chan struct{}) {
 		}
 		for i, s := range slots {
 			n := s.n.Load()
-			c := s.cur.Load()
-			if n == last[i] && c != nil {
+			c := &c05Cur{s.p, s.in}
+			if n == last[i] && s.busy.Load() {
 				stuck[i]++
 			} else {
 				stuck[i] = 0
@@ -263,39 +282,75 @@ func (x *c05Renderer) cap(c bgp.ParameterCapabilityInterface) {
 	}
 }
 
-// msg renders a message and returns its re-serialisation (nil on error / panic).
+// msg renders a message and returns its re-serialisation (nil on error / panic). String() and Len() are
+// called on every element; json.Marshal and Serialize are called on the whole message (which calls the
+// elements' MarshalJSON / Serialize) and, only if that panics, on each element to name the culprit.
 func (x *c05Renderer) msg(m *bgp.BGPMessage) []byte {
 	if m == nil || m.Body == nil {
 		return nil
 	}
-	switch b := m.Body.(type) {
-	case *bgp.BGPUpdate:
-		for _, a := range b.PathAttributes {
-			x.attr(a)
-		}
-		for _, n := range b.NLRI {
-			x.nlri(n.NLRI)
-			x.str(n)
-		}
-		for _, n := range b.WithdrawnRoutes {
-			x.nlri(n.NLRI)
-		}
-	case *bgp.BGPOpen:
-		for _, p := range b.OptParams {
-			if pc, ok := p.(*bgp.OptionParameterCapability); ok {
-				for _, c := range pc.Capability {
-					x.cap(c)
+	elements := func(full bool) {
+		switch b := m.Body.(type) {
+		case *bgp.BGPUpdate:
+			for _, a := range b.PathAttributes {
+				if full {
+					x.attr(a)
+					continue
+				}
+				x.str(a)
+				if pi := c05Try(func() { _ = a.Len(x.p.o.Opts...) }); pi != nil {
+					x.fail("Len()", a, pi)
 				}
 			}
-			if pi := c05Try(func() { _, _ = p.Serialize() }); pi != nil {
-				x.fail("Serialize()", p, pi)
+			for _, l := range [][]bgp.PathNLRI{b.NLRI, b.WithdrawnRoutes} {
+				for _, n := range l {
+					if full {
+						x.nlri(n.NLRI)
+						continue
+					}
+					x.str(n)
+					if pi := c05Try(func() { _ = n.NLRI.Len(x.p.o.Opts...) }); pi != nil {
+						x.fail("Len()", n.NLRI, pi)
+					}
+				}
+			}
+		case *bgp.BGPOpen:
+			for _, p := range b.OptParams {
+				if pc, ok := p.(*bgp.OptionParameterCapability); ok {
+					for _, c := range pc.Capability {
+						if full {
+							x.cap(c)
+						} else if pi := c05Try(func() { _ = c.Len() }); pi != nil {
+							x.fail("Len()", c, pi)
+						}
+					}
+				}
 			}
 		}
 	}
-	x.json(m)
+	elements(false)
 	var out []byte
-	if pi := c05Try(func() { out, _ = m.Serialize(x.p.o.Opts...) }); pi != nil {
-		x.fail("Serialize()", m, pi)
+	pj := c05Try(func() {
+		b, _ := json.Marshal(m)
+		if c05Swallowed(string(b)) {
+			x.bad = true
+			x.p.r.Violationf("C05:panic-swallowed-by-fmt:JSON:BGPMessage", x.p.cs(x.in), "JSON of the message returned by %s [%s] for input %s hides a panic: %.300s", x.p.entry, x.p.o.Name, c05Hex(x.in), b)
+		}
+	})
+	ps := c05Try(func() { out, _ = m.Serialize(x.p.o.Opts...) })
+	if pj != nil || ps != nil {
+		before := x.bad
+		x.bad = false
+		elements(true)
+		if !x.bad { // no single element reproduces it: report at the message level
+			if pj != nil {
+				x.fail("json.Marshal", m, pj)
+			}
+			if ps != nil {
+				x.fail("Serialize()", m, ps)
+			}
+		}
+		x.bad = x.bad || before || true
 		return nil
 	}
 	return out
@@ -327,38 +382,108 @@ func c05WrapAttr(in []byte) []byte {
 	return append(b, in...)
 }
 
+// call wrappers with an open-coded recover (no closure allocation on the hot path)
+func (p *c05Probe) callMessage(in []byte) (m *bgp.BGPMessage, err error, pi *c05PanicInfo) {
+	defer func() {
+		if rec := recover(); rec != nil {
+			pi = c05Catch(rec)
+		}
+	}()
+	m, err = bgp.ParseBGPMessage(in, p.o.Opts...)
+	return
+}
+
+func (p *c05Probe) callBody(typ uint8, in []byte) (m *bgp.BGPMessage, err error, pi *c05PanicInfo) {
+	defer func() {
+		if rec := recover(); rec != nil {
+			pi = c05Catch(rec)
+		}
+	}()
+	p.hdr = bgp.BGPHeader{Len: uint16(bgp.BGP_HEADER_LENGTH + len(in)), Type: typ}
+	m, err = bgp.ParseBGPBody(&p.hdr, in, p.o.Opts...)
+	return
+}
+
+func (p *c05Probe) callAttr(in []byte) (a bgp.PathAttributeInterface, err error, pi *c05PanicInfo) {
+	defer func() {
+		if rec := recover(); rec != nil {
+			pi = c05Catch(rec)
+		}
+	}()
+	a, err = bgp.GetPathAttribute(in)
+	if err == nil {
+		err = a.DecodeFromBytes(in, p.o.Opts...)
+	}
+	return
+}
+
+func (p *c05Probe) callNLRI(in []byte) (n bgp.NLRI, err error, pi *c05PanicInfo) {
+	defer func() {
+		if rec := recover(); rec != nil {
+			pi = c05Catch(rec)
+		}
+	}()
+	n, err = bgp.NLRIFromSlice(p.fam, in, p.o.Opts...)
+	return
+}
+
+func (p *c05Probe) callCap(in []byte) (c bgp.ParameterCapabilityInterface, err error, pi *c05PanicInfo) {
+	defer func() {
+		if rec := recover(); rec != nil {
+			pi = c05Catch(rec)
+		}
+	}()
+	c, err = bgp.DecodeCapability(in)
+	return
+}
+
+// exactBuf returns a buffer of exactly n bytes (cap == len). Short buffers are reused per probe: the values
+// decoded from the previous case are no longer referenced when the next case starts.
+func (p *c05Probe) exactBuf(n int) []byte {
+	if n < len(p.bufs) {
+		if p.bufs[n] == nil {
+			p.bufs[n] = make([]byte, n)
+		}
+		return p.bufs[n]
+	}
+	return make([]byte, n)
+}
+
 // Run evaluates every oracle clause on one input. exact is a private copy of the input whose capacity
 // equals its length, so that any re-slicing beyond the input panics instead of silently over-reading.
 func (p *c05Probe) Run(input []byte) {
 	r := p.r
 	r.Eval()
-	exact := make([]byte, len(input))
+	exact := p.exactBuf(len(input))
 	copy(exact, input)
-	keep := make([]byte, len(input))
-	copy(keep, input)
+	keep := input // owned by the enumerator, never handed to the parser: the reference copy
 	if p.slot != nil {
-		p.slot.cur.Store(&c05Cur{p, keep})
-		defer p.slot.n.Add(1)
+		p.slot.p, p.slot.in = p, keep
+		p.slot.n.Add(1)
 	}
-	x := &c05Renderer{p: p, in: keep}
+	var x *c05Renderer
 	var perr error
 	var pi *c05PanicInfo
-	outcome := p.entry + ":rejected"
+	if p.outRej == "" {
+		p.outRej = p.entry + ":rejected"
+		if p.entry == c05NLRI {
+			p.outRej = "nlri:rejected:" + p.fam.String()
+			p.outAcc = "nlri:accepted:" + p.fam.String()
+		}
+	}
+	outcome := p.outRej
 	switch p.entry {
 	case c05Message, c05Body, c05AttrInUp:
 		var m *bgp.BGPMessage
 		switch p.entry {
 		case c05Message:
-			pi = c05Try(func() { m, perr = bgp.ParseBGPMessage(exact, p.o.Opts...) })
+			m, perr, pi = p.callMessage(exact)
 		case c05Body:
-			h := &bgp.BGPHeader{Len: uint16(bgp.BGP_HEADER_LENGTH + len(exact)), Type: p.htype}
-			pi = c05Try(func() { m, perr = bgp.ParseBGPBody(h, exact, p.o.Opts...) })
+			m, perr, pi = p.callBody(p.htype, exact)
 		case c05AttrInUp:
 			exact = c05WrapAttr(input)
 			keep = append([]byte{}, exact...)
-			x.in = keep
-			h := &bgp.BGPHeader{Len: uint16(bgp.BGP_HEADER_LENGTH + len(exact)), Type: bgp.BGP_MSG_UPDATE}
-			pi = c05Try(func() { m, perr = bgp.ParseBGPBody(h, exact, p.o.Opts...) })
+			m, perr, pi = p.callBody(bgp.BGP_MSG_UPDATE, exact)
 		}
 		if pi != nil {
 			r.Violationf("C05:panic:"+pi.Key(), p.cs(keep), "%s [%s] panics on input %s: %s", p.entry, p.o.Name, c05Hex(keep), pi)
@@ -368,6 +493,7 @@ func (p *c05Probe) Run(input []byte) {
 			outcome = p.entry + ":rejected(value returned with a fatal error; not rendered)"
 		}
 		if m != nil && (perr == nil || c05NonFatal(m, perr)) {
+			x = &c05Renderer{p: p, in: keep}
 			out := x.msg(m)
 			if perr == nil {
 				outcome = fmt.Sprintf("%s:accepted:type%d", p.entry, m.Header.Type)
@@ -384,17 +510,13 @@ func (p *c05Probe) Run(input []byte) {
 		}
 	case c05Attr:
 		var a bgp.PathAttributeInterface
-		pi = c05Try(func() {
-			a, perr = bgp.GetPathAttribute(exact)
-			if perr == nil {
-				perr = a.DecodeFromBytes(exact, p.o.Opts...)
-			}
-		})
+		a, perr, pi = p.callAttr(exact)
 		if pi != nil {
 			r.Violationf("C05:panic:"+pi.Key(), p.cs(keep), "attribute decode [%s] panics on input %s: %s", p.o.Name, c05Hex(keep), pi)
 			return
 		}
 		if perr == nil {
+			x = &c05Renderer{p: p, in: keep}
 			x.attr(a)
 			outcome = fmt.Sprintf("attr:accepted:type%d", a.GetType())
 			if !x.bad {
@@ -403,14 +525,15 @@ func (p *c05Probe) Run(input []byte) {
 		}
 	case c05NLRI:
 		var n bgp.NLRI
-		pi = c05Try(func() { n, perr = bgp.NLRIFromSlice(p.fam, exact, p.o.Opts...) })
+		n, perr, pi = p.callNLRI(exact)
 		if pi != nil {
 			r.Violationf("C05:panic:"+pi.Key(), p.cs(keep), "NLRIFromSlice(%s) [%s] panics on input %s: %s", p.fam, p.o.Name, c05Hex(keep), pi)
 			return
 		}
 		if perr == nil && n != nil {
+			x = &c05Renderer{p: p, in: keep}
 			x.nlri(n)
-			outcome = "nlri:accepted:" + p.fam.String()
+			outcome = p.outAcc
 			if !x.bad {
 				k := keep
 				if len(k) > 2 {
@@ -418,17 +541,16 @@ func (p *c05Probe) Run(input []byte) {
 				}
 				r.NT(fmt.Sprintf("nlri:%s:%x", p.fam, k))
 			}
-		} else {
-			outcome = "nlri:rejected:" + p.fam.String()
 		}
 	case c05Cap:
 		var c bgp.ParameterCapabilityInterface
-		pi = c05Try(func() { c, perr = bgp.DecodeCapability(exact) })
+		c, perr, pi = p.callCap(exact)
 		if pi != nil {
 			r.Violationf("C05:panic:"+pi.Key(), p.cs(keep), "DecodeCapability panics on input %s: %s", c05Hex(keep), pi)
 			return
 		}
 		if perr == nil && c != nil {
+			x = &c05Renderer{p: p, in: keep}
 			x.cap(c)
 			outcome = fmt.Sprintf("cap:accepted:code%d", c.Code())
 			if !x.bad {
@@ -487,10 +609,10 @@ func c05Digest(b []byte) uint32 {
 	return h
 }
 
-// guard: parse the same message placed in front of 32 further bytes of the same buffer (two different
-// fillings); verdict and re-serialisation must not change.
+// guard: parse the same message placed in front of 32 further bytes (0xa5) of the same buffer; verdict and
+// re-serialisation must not change.
 func (p *c05Probe) guard(msg []byte, err0 error, out0 []byte) {
-	for _, fill := range []byte{0x00, 0xff} {
+	for _, fill := range []byte{0xa5} {
 		buf := make([]byte, len(msg)+32)
 		copy(buf, msg)
 		for i := len(msg); i < len(buf); i++ {
@@ -771,7 +893,11 @@ func c05Parallel(t *testing.T, r *vr.Report, fn func(w, W int, c *vr.Report, slo
 	}
 	done := make(chan struct{})
 	go c05Watchdog(t, slots, done)
-	r.Parallel(W, func(w int, c *vr.Report) { fn(w, W, c, slots[w]); slots[w].cur.Store(nil) })
+	r.Parallel(W, func(w int, c *vr.Report) {
+		slots[w].busy.Store(true)
+		fn(w, W, c, slots[w])
+		slots[w].busy.Store(false)
+	})
 	close(done)
 }
 
@@ -935,12 +1061,19 @@ func TestVerif_C05_Mutations(t *testing.T) {
 	os.Setenv("C05_PART", "mutations")
 	r := vr.Start(t, "C05", "mutations")
 	defer r.Finish()
-	r.Rule = "seeds = every single-element message of the bgpgen catalogue (all message types, every capability, every attribute value, NLRI/withdrawn boundaries, every family in MP_REACH/MP_UNREACH; <= 512 bytes) serialised under each compatible option set of 16; mutants = every position x 14 values (12 fixed + original-1/+1), every adjacent pair as a 2-octet length in {0,1,v-1,v+1,ffff}, every truncation with and without header-length adjustment; each mutant through ParseBGPMessage (exact-capacity buffer, and followed by guard bytes) and its body through ParseBGPBody; thorough: additionally all pairs (structural length field located by refwire x {0,1,len-1,len+1,max}) x (every position x 12 values) on the seed catalogue (one per kind); non-trivial = distinct (outcome, structural shape of the returned message: attribute types, family and element counts, capability codes)"
+	r.Rule = "seeds = every single-element message of the bgpgen catalogue (all message types, every capability, every attribute value, NLRI/withdrawn boundaries, every family in MP_REACH/MP_UNREACH; <= 512 bytes) serialised under each compatible option set of the 8 non-extended ones (ExtendedMessage only lifts the Serialize size limit, irrelevant for <=512-byte seeds); mutants = every position x 14 values (12 fixed + original-1/+1), every adjacent pair as a 2-octet length in {0,1,v-1,v+1,ffff}, every truncation with and without header-length adjustment; additionally every position x all 256 values on the one-per-kind seed catalogue (4 option sets); each mutant through ParseBGPMessage (exact-capacity buffer, and again followed by 32 guard bytes in the same buffer); thorough: additionally all pairs (structural length field located by refwire x {0,1,len-1,len+1,max}) x (every position x 12 values) on the seed catalogue (one per kind); non-trivial = distinct (outcome, structural shape of the returned message: attribute types, family and element counts, capability codes)"
 	if r.ReplayPath() != "" {
 		c05Replay(t, r)
 		return
 	}
-	opts := bgpgen.MarshallingOptionSets()
+	// the parser looks at ADD-PATH (v4 / other families) and the AS width; ExtendedMessage only changes
+	// the size limit of Serialize, and every seed here is <= 512 bytes: the 8 non-extended sets
+	var opts []bgpgen.OptSet
+	for _, o := range bgpgen.MarshallingOptionSets() {
+		if !o.Extended {
+			opts = append(opts, o)
+		}
+	}
 	seeds := c05SeedBuilders(true)
 	r.Bounds["seed_messages"] = len(seeds)
 	r.Bounds["seed_max_bytes"] = c05MaxSeed
@@ -963,17 +1096,11 @@ func TestVerif_C05_Mutations(t *testing.T) {
 				_ = prev
 				nSeedOpt.Add(1)
 				pm := &c05Probe{r: c, entry: c05Message, o: o, slot: slot}
-				pb := &c05Probe{r: c, entry: c05Body, o: o, slot: slot}
-				pm.note = mb.Name + " intact"
+				pm.seed = mb.Name
 				pm.Run(b)
 				n := c05Mutations(b, func(m []byte, what string) {
-					pm.note = mb.Name + " " + what
+					pm.mut = what
 					pm.Run(m)
-					if len(m) >= bgp.BGP_HEADER_LENGTH {
-						pb.note = pm.note
-						pb.htype = m[18]
-						pb.Run(m[bgp.BGP_HEADER_LENGTH:])
-					}
 				})
 				nMut.Add(int64(n))
 				if c.WantSample() && i%97 == 0 && o.Name == opts[0].Name {
@@ -984,13 +1111,46 @@ func TestVerif_C05_Mutations(t *testing.T) {
 	})
 	r.Extra["seed_x_option_sets"] = nSeedOpt.Load()
 	r.Extra["single_mutants"] = nMut.Load()
+	// every position x ALL 256 values on the one-per-kind seed catalogue (reaches value-specific branches
+	// such as magic lengths and type codes that the 14 boundary values miss), 4 option sets
+	kinds := c05SeedBuilders(false)
+	four := c05FourOpts()
+	r.Bounds["full_alphabet_seed_messages"] = len(kinds)
+	r.Bounds["full_alphabet_option_sets"] = len(four)
+	var nFull atomic.Int64
+	c05Parallel(t, r, func(w, W int, c *vr.Report, slot *c05Slot) {
+		for i, mb := range kinds {
+			if i%W != w {
+				continue
+			}
+			for _, o := range four {
+				b, ok := c05SeedBytes(mb, o)
+				if !ok {
+					continue
+				}
+				pm := &c05Probe{r: c, entry: c05Message, o: o, slot: slot, seed: mb.Name}
+				wk := make([]byte, len(b))
+				for pos := range b {
+					copy(wk, b)
+					for v := 0; v < 256; v++ {
+						if byte(v) == b[pos] {
+							continue
+						}
+						wk[pos] = byte(v)
+						pm.pair = [4]int{-1, 0, pos, v}
+						pm.Run(wk)
+						nFull.Add(1)
+					}
+				}
+			}
+		}
+	})
+	r.Extra["full_alphabet_mutants"] = nFull.Load()
 	if !vr.Thorough() {
 		return
 	}
 	// pairs: structural length-field fault x single-byte fault
-	kinds := c05SeedBuilders(false)
 	r.Bounds["pair_seed_messages"] = len(kinds)
-	four := c05FourOpts()
 	r.Bounds["pair_option_sets"] = len(four)
 	var nPairs atomic.Int64
 	c05Parallel(t, r, func(w, W int, c *vr.Report, slot *c05Slot) {
@@ -1003,7 +1163,7 @@ func TestVerif_C05_Mutations(t *testing.T) {
 				if !ok {
 					continue
 				}
-				pm := &c05Probe{r: c, entry: c05Message, o: o, slot: slot}
+				pm := &c05Probe{r: c, entry: c05Message, o: o, slot: slot, seed: mb.Name}
 				wk := make([]byte, len(b))
 				for _, f := range c05LenFields(b, o) {
 					for _, v := range c05FieldValues(c05GetField(b, f), f.Size) {
@@ -1018,7 +1178,9 @@ func TestVerif_C05_Mutations(t *testing.T) {
 								copy(wk, b)
 								c05SetField(wk, f, v)
 								wk[pos] = bv
-								pm.note = fmt.Sprintf("%s %s=%d byte[%d]=%#02x", mb.Name, f.What, v, pos, bv)
+								pm.mut = ""
+								pm.note = ""
+								pm.pair = [4]int{f.Off, int(v), pos, int(bv)}
 								pm.Run(wk)
 								nPairs.Add(1)
 							}
